@@ -351,6 +351,7 @@ func c19Run(c *Ctx) {
 		}
 		for _, src := range []string{
 			Lines(For(Var("i", "0"), "i < 4", "i = i + 1", "{ "+Print("1 << i")+" }"), Print("12 >> 0"), Print("0 << 0"), Print("5 % 5"), Print("0 / 1"), Print("0 ** 0"), Print(`"end"`)),
+			Lines(Var("nm", BI("input")), Print("!!nm"), Print("- -3"), Print("!-1"), Print("-~5"), Print("~~7"), Print("!!!0"), Print("2 * - - 2"), Print(`"end"`)),
 			Lines(Var("seen", "0"), Var("i", "0"), While("i < 6", "{ i = i + 1; "+If("i % 2 == 0", "{ "+Continue()+" }")+" seen = seen + i; }"), Print("seen"), Var("w", BI("input")), While(`w == "a"`, "{ w = "+BI("input")+"; "+Continue()+" }"), Print("w")),
 		} {
 			if c.Mine() {
